@@ -139,6 +139,71 @@ theorem refused_before_gate (st0 : St) (h0 : Init st0) (sched : List Nat) (n : N
   have : nref [k] = 0 := by cases k <;> simp_all [nref]
   omega
 
+/-! ### the reason clause: "… with a reason naming one of the causes in progress"
+
+  `calls n` records every handler invocation with the kind of the task that made it — the `reason`
+  argument (`SERVER_DISCONNECT` for `api`, `CLIENT_DISCONNECT` for `clientDisc`, the engine.io
+  reason for `lost`).  `marks n` records the kinds of the tasks that passed the gate of `n`. -/
+
+/-- **The reason is the gate winner's** — at every step of every schedule: when the handler of `n`
+    has been invoked with reason `k`, the task that passed the gate of `n` is of kind `k`, and it is
+    the only one that ever passed it. -/
+theorem reason_is_gate_winner (st0 : St) (h0 : Init st0) (sched : List Nat) (n : Ns) (k : Kind) :
+    (run true st0 sched).sh.calls n = [k] → (run true st0 sched).sh.marks n = [k] := by
+  intro hc
+  have hk : k ∈ (run true st0 sched).sh.calls n := by rw [hc]; simp
+  exact inv_reason_winner _ _ (async_inv st0 h0 sched) n k
+    (reason_provenance true st0 h0 sched n k hk).1
+
+/-- **The handler calls follow the gate record** (strongest form) — at every step of every
+    schedule, for every namespace:
+    * `calls n` is the gate record `marks n` without refusals as soon as no passing task is still on
+      its way to the handler (`cnt st n 2 = 0`: no task between its `pre_disconnect` and its
+      `_trigger_event`), and empty before that;
+    * so `calls n` is empty or equal to `marks n`, in particular a sublist of it;
+    * every recorded reason `k` is not a refusal, `calls n = [k]` and `marks n = [k]`. -/
+theorem reason_follows_gate (st0 : St) (h0 : Init st0) (sched : List Nat) (n : Ns) :
+    ((run true st0 sched).sh.calls n =
+        if cnt (run true st0 sched) n 2 = 0
+        then ((run true st0 sched).sh.marks n).filter (· != Kind.refuse) else [])
+    ∧ ((run true st0 sched).sh.calls n = [] ∨
+        (run true st0 sched).sh.calls n = (run true st0 sched).sh.marks n)
+    ∧ ((run true st0 sched).sh.calls n).Sublist ((run true st0 sched).sh.marks n)
+    ∧ (∀ k, k ∈ (run true st0 sched).sh.calls n →
+        k ≠ Kind.refuse ∧ (run true st0 sched).sh.calls n = [k] ∧
+        (run true st0 sched).sh.marks n = [k]) :=
+  calls_marks_facts _ _ (async_inv st0 h0 sched) n
+    (fun k hk => (reason_provenance true st0 h0 sched n k hk).1)
+
+/-- **The reason names a cause in progress** — at every step of every schedule: every reason `k`
+    with which the handler of `n` has been invoked is the kind of a task `i` of the initial state
+    that has `n` on its list (so `n` is targeted), is not a refusal, and along the schedule that very
+    task first executed `pre_disconnect(sid, n)` (`passedGate`: some step of the schedule is task `i`
+    pushing `k` on the gate record of `n`) and later made the call (`ranHandler`: some later step of
+    the schedule is task `i` pushing `k` on `calls n`). -/
+theorem reason_names_cause_in_progress (st0 : St) (h0 : Init st0) (sched : List Nat) (n : Ns)
+    (k : Kind) (hk : k ∈ (run true st0 sched).sh.calls n) :
+    k ≠ Kind.refuse ∧ targeted st0 n = true ∧
+    ∃ i t0, st0.tasks[i]? = some t0 ∧ t0.kind = k ∧ n ∈ t0.todo ∧
+      passedGate true st0 sched i n k ∧ ranHandler true st0 sched i n k := by
+  refine ⟨((reason_follows_gate st0 h0 sched n).2.2.2 k hk).1, ?_,
+    (reason_provenance true st0 h0 sched n k hk).2⟩
+  cases ht : targeted st0 n with
+  | true => rfl
+  | false =>
+    have := ((async_disconnect_once st0 h0 sched).2.2.2.2.2 n ht).2.1
+    have hnil := List.eq_nil_of_length_eq_zero this
+    rw [hnil] at hk; simp at hk
+
+/-- … and that cause is a terminating one: when the CONNECTs being accepted have not yet run their
+    connect handler at the start (`connAtStart`, true of every `mkSt` state), every reason is
+    `api` (`disconnect()`), `clientDisc` (DISCONNECT packet) or `lost` (transport loss). -/
+theorem reason_is_terminating_cause (st0 : St) (h0 : Init st0) (hc : connAtStart st0)
+    (sched : List Nat) (n : Ns) (k : Kind) (hk : k ∈ (run true st0 sched).sh.calls n) :
+    k = .api ∨ k = .clientDisc ∨ k = .lost := by
+  obtain ⟨i, _, _, _, _, _, hr⟩ := (reason_provenance true st0 h0 sched n k hk).2
+  exact ranHandler_kind true st0 h0 hc sched i n k hr
+
 /-- **Frame for bystanders.**  A task that is not a terminating path of this sid — in the model: a
     task at `chandler` / `csend` (a CONNECT being answered; for a refusing CONNECT: its connect
     handler deciding, before its `is_connected` test), in the harness also: a refused CONNECT
@@ -194,6 +259,36 @@ example : allDone (run true ex1 [0, 1, 0, 1, 1, 1, 2, 2, 2, 2]) = true
     ∧ (run true ex1 [0, 1, 0, 1, 1, 1, 2, 2, 2, 2]).sh.calls 0 = [.api]
     ∧ (run true ex1 [0, 1, 0, 1, 1, 1, 2, 2, 2, 2]).sh.refusals 0 = 0
     ∧ (run true ex1 [0, 1, 0, 1, 1, 1, 2, 2, 2, 2]).sh.marks 0 = [.api] := by decide
+
+/-- the reason clause is not vacuous: where `disconnect()` wins (previous example) the reason and the
+    gate record are both `[.api]`; mid-schedule, after `disconnect()` passed the gate and before its
+    handler ran (prefix `[0, 1, 0]`), one task is on its way (`cnt … 2 = 1`), `calls 0 = []` while
+    `marks 0 = [.api]`; where the refusal wins, `calls 0 = []` and the filter removes the refusal;
+    on `ex0` the loss ends namespace 1 with reason `lost` and `disconnect()` namespace 0 -/
+example : (run true ex1 [0, 1, 0, 1, 1, 1, 2, 2, 2, 2]).sh.calls 0 = [.api]
+    ∧ (run true ex1 [0, 1, 0, 1, 1, 1, 2, 2, 2, 2]).sh.marks 0 = [.api]
+    ∧ cnt (run true ex1 [0, 1, 0, 1, 1, 1, 2, 2, 2, 2]) 0 2 = 0
+    ∧ cnt (run true ex1 [0, 1, 0]) 0 2 = 1
+    ∧ (run true ex1 [0, 1, 0]).sh.calls 0 = []
+    ∧ (run true ex1 [0, 1, 0]).sh.marks 0 = [.api]
+    ∧ ((run true ex1 [0, 0, 1, 2, 0, 0, 2, 2, 2]).sh.marks 0).filter (· != Kind.refuse) = []
+    ∧ (run true ex0 [0, 1, 2, 3, 0, 2, 0, 2, 0, 2, 3, 2]).sh.marks 0 = [.api]
+    ∧ (run true ex0 [0, 1, 2, 3, 0, 2, 0, 2, 0, 2, 3, 2]).sh.marks 1 = [.lost]
+    ∧ Kind.api ∈ (run true ex1 [0, 1, 0, 1, 1, 1, 2, 2, 2, 2]).sh.calls 0 := by decide
+
+/-- the witnesses of `reason_names_cause_in_progress` on that schedule: task 1 of `ex1` is the
+    `disconnect()` for namespace 0; its step after the prefix `[0]` is the gate passage, its step
+    after the prefix `[0, 1, 0, 1]` is the handler call -/
+example : ex1.tasks[1]? = some ⟨.api, [0], .check⟩
+    ∧ passedGate true ex1 [0, 1, 0, 1, 1, 1, 2, 2, 2, 2] 1 0 .api
+    ∧ ranHandler true ex1 [0, 1, 0, 1, 1, 1, 2, 2, 2, 2] 1 0 .api := by
+  have hg : marksAt true (run true ex1 [0]) 1 0 .api :=
+    ⟨⟨.api, [0], .check⟩, by decide, rfl, rfl, by decide⟩
+  refine ⟨by decide, ⟨[0], ⟨[0, 1, 1, 1, 2, 2, 2, 2], rfl⟩, hg⟩,
+    ⟨[0, 1, 0, 1], ⟨[1, 2, 2, 2, 2], rfl⟩, ?_, ⟨[0], ⟨[0, 1], rfl⟩, hg⟩⟩⟩
+  exact ⟨⟨.api, [0], .handler⟩, by decide, rfl, rfl, by decide⟩
+
+example : connAtStart ex0 ∧ connAtStart ex1 := ⟨mkSt_connAtStart _ _ _, mkSt_connAtStart _ _ _⟩
 
 /-- the hypotheses of `refused_never_notified_after` are met after the prefix `[0, 0]` (both forms) -/
 example : (run true ex1 [0, 0]).tasks.any (refusedPast 0) = true
